@@ -107,8 +107,9 @@ def pipeline(fam, progs, outdir, module, cap=6000, pb=None, workers=6, max_diag=
 
 def cached(fam, progs, tier, module, cap, pb):
     import checks
-    if len(progs) > checks.CHUNK:
-        parts = [cached(fam, progs[i:i + checks.CHUNK], tier, module, cap, pb) for i in range(0, len(progs), checks.CHUNK)]
+    chunk = checks.CHUNK if tier == "quick" else checks.CHUNK // 2
+    if len(progs) > chunk:
+        parts = [cached(fam, progs[i:i + chunk], tier, module, cap, pb) for i in range(0, len(progs), chunk)]
         return checks.merge_results(fam, parts)
     return cached1(fam, progs, tier, module, cap, pb)
 
